@@ -31,13 +31,19 @@ inductive VTy where
   | sl (k : RKind)
   | anys               -- `[]interface{}` as an array literal builds it: nothing is claimed about the elements
   | obj (t : OTy)      -- a struct or pointer-to-struct type: its members, as the checker types them
+  | slo (t : OTy)      -- a slice of structs (or of pointers to structs) with element type `t`
   | mapAny             -- a map with string keys and `interface{}` elements (also what a map literal builds)
   | any                -- an interface type: no claim about the value
   deriving DecidableEq
 
 def VTy.isSlice : VTy → Bool
-  | .sl _ | .anys => true
+  | .sl _ | .anys | .slo _ => true
   | .sc _ | .obj _ | .mapAny | .any => false
+
+/-- a collection whose elements are typed: what the builtins iterate and `#` reads -/
+def VTy.isColl : VTy → Bool
+  | .sl _ | .slo _ => true
+  | _ => false
 
 /-- the element kind of a slice-of-scalars type -/
 def sliceElemKind (t : OTy) : Option RKind :=
@@ -60,6 +66,15 @@ def isAnySlice (t : OTy) : Bool :=
 /-- a struct, or a pointer (of any depth) to a struct -/
 def isObjT (t : OTy) : Bool := t.deref.kind == .struct
 
+/-- the element type of a slice of structs / pointers to structs -/
+def sloElem (t : OTy) : Option OTy :=
+  match t with
+  | some ty =>
+    match ty.core with
+    | .slice e => if isObjT (some e) then some (some e) else none
+    | _ => none
+  | none => none
+
 /-- `map[string]interface{}` (the key of string kind, the element an interface) -/
 def isMapAnyT (t : OTy) : Bool :=
   match t with
@@ -75,10 +90,13 @@ def vtyOf (t : OTy) : Option VTy :=
     | some k => some (.sl k)
     | none =>
       if isAnySlice t then some .anys
-      else if isObjT t then some (.obj t)
-      else if isMapAnyT t then some .mapAny
-      else if t.kind == .iface then some .any
-      else none
+      else match sloElem t with
+        | some et => some (.slo et)
+        | none =>
+          if isObjT t then some (.obj t)
+          else if isMapAnyT t then some .mapAny
+          else if t.kind == .iface then some .any
+          else none
 
 /-- a value conforms to a type, to depth `n`: scalars and slices as before; for a struct (or pointer to
 struct) type, every member the checker resolves on it (`fieldTypeT`, name resolution of the current code)
@@ -99,6 +117,7 @@ def Conf : Nat → Val → OTy → Prop
         (∀ name τ, fieldTypeT .asIs t name = some τ →
           ∃ w, (∀ ns, fetchV v (.str name) ns = .ok w) ∧ Conf n w (some τ)) ∧
         (∀ name fn im, methodTarget .asIs t name = some (fn, im) → ∃ id, lookupKv name fs = some (.fn id))
+    | some (.slo et) => ∃ tag xs, v = .arr tag xs ∧ ∀ x ∈ xs, Conf n x et
     | some .mapAny => ∃ kvs, v = .map kvs
     | some .any => True
     | none => True
@@ -108,6 +127,7 @@ def ValOfV (v : Val) : VTy → Prop
   | .sl k => ArrOf v k
   | .anys => ∃ xs, v = .arr .iface xs
   | .obj t => ∀ n, Conf n v t
+  | .slo et => ∃ tag xs, v = .arr tag xs ∧ ∀ x ∈ xs, ∀ n, Conf n x et
   | .mapAny => ∃ kvs, v = .map kvs
   | .any => True
 
@@ -117,6 +137,7 @@ theorem arr_of_sliceV {v : Val} {V : VTy} (hV : V.isSlice = true) (hv : ValOfV v
   | obj t => cases hV
   | mapAny => cases hV
   | any => cases hV
+  | slo t => obtain ⟨et, xs, rfl, _⟩ := hv; exact ⟨_, _, rfl⟩
   | sl k => obtain ⟨et, xs, rfl, _, _⟩ := hv; exact ⟨_, _, rfl⟩
   | anys => obtain ⟨xs, rfl⟩ := hv; exact ⟨_, _, rfl⟩
 
@@ -137,6 +158,17 @@ theorem conf_valOfV {w : Val} {τ : OTy} {V : VTy} (hV : vtyOf τ = some V) (h :
   | anys => have := h 1; simp only [Conf, hV] at this; exact this
   | mapAny => have := h 1; simp only [Conf, hV] at this; exact this
   | any => trivial
+  | slo et =>
+    have h1 := h 1
+    simp only [Conf, hV] at h1
+    obtain ⟨tag, xs, rfl, _⟩ := h1
+    refine ⟨tag, xs, rfl, ?_⟩
+    intro x hx n
+    have hn := h (n + 1)
+    simp only [Conf, hV] at hn
+    obtain ⟨tag', xs', he, hall⟩ := hn
+    cases he
+    exact hall x hx
 
 theorem valOfV_conf {w : Val} {τ : OTy} {V : VTy} (hV : vtyOf τ = some V) (h : ValOfV w V) : ∀ n, Conf n w τ := by
   intro n
@@ -153,6 +185,10 @@ theorem valOfV_conf {w : Val} {τ : OTy} {V : VTy} (hV : vtyOf τ = some V) (h :
     | anys => simp only [Conf, hV]; exact h
     | mapAny => simp only [Conf, hV]; exact h
     | any => simp only [Conf, hV]
+    | slo et =>
+      simp only [Conf, hV]
+      obtain ⟨tag, xs, rfl, hall⟩ := h
+      exact ⟨tag, xs, rfl, fun x hx => hall x hx n⟩
 
 theorem vtyOf_scalar {t : OTy} (h : ScalarT t) : vtyOf t = some (.sc t.kind) := by
   unfold vtyOf
@@ -209,6 +245,89 @@ theorem vtyOf_slice_of {t : OTy} {k : RKind} (hk : sliceElemKind t = some k) : v
   obtain ⟨ty, e, rfl, _, _, _, _, hkind⟩ := sliceElemKind_facts hk
   simp [OTy.kind, hkind, RKind.isScalar, hk]
 
+theorem obj_core {ty : Ty} (h : isObjT (some ty) = true) :
+    (∃ fs, ty.core = .struct fs) ∨ (∃ u, ty.core = .ptr u) := by
+  by_cases hp : ty.isPtr = true
+  · unfold Ty.isPtr at hp
+    cases hc : ty.core <;> rw [hc] at hp <;> simp only [] at hp <;> first | exact Or.inr ⟨_, rfl⟩ | cases hp
+  · have hp' : ty.isPtr = false := by simpa using hp
+    have hd := Ty.deref_of_not_isPtr hp'
+    simp only [isObjT, OTy.deref, OTy.kind, hd, beq_iff_eq] at h
+    exact Or.inl (Ty.kind_struct_iff.1 h)
+
+theorem vtyOf_of_isObj {t : OTy} (h : isObjT t = true) : vtyOf t = some (.obj t) := by
+  cases t with
+  | none => simp [isObjT, OTy.deref, OTy.kind] at h
+  | some ty =>
+    rcases obj_core h with ⟨fs, hc⟩ | ⟨u, hc⟩ <;>
+      simp [vtyOf, OTy.kind, Ty.kind, hc, RKind.isScalar, sliceElemKind, isAnySlice, sloElem, h]
+
+/-- facts about a slice-of-structs type -/
+theorem slo_facts {t et : OTy} (h : vtyOf t = some (.slo et)) :
+    isArrayT t = true ∧ indexTypeT t = some et ∧ vtyOf et = some (.obj et) := by
+  have hse : sloElem t = some et := by
+    unfold vtyOf at h
+    (repeat' (split at h)) <;> first | (cases h; assumption) | cases h
+  cases t with
+  | none => cases hse
+  | some ty =>
+    simp only [sloElem] at hse
+    cases hc : ty.core <;> rw [hc] at hse <;> simp only [] at hse <;> try (cases hse)
+    rename_i e
+    by_cases ho : isObjT (some e) = true
+    · rw [if_pos ho] at hse
+      cases hse
+      have hp : ty.isPtr = false := by simp [Ty.isPtr, hc]
+      have hkind : ty.kind = .slice := by simp [Ty.kind, hc]
+      have hd : OTy.deref (some ty) = some ty := by
+        simp only [OTy.deref, Ty.deref_of_not_isPtr hp]
+      refine ⟨?_, ?_, vtyOf_of_isObj ho⟩
+      · unfold isArrayT; rw [hd]; simp [OTy.kind, hkind]
+      · unfold indexTypeT; rw [hd]; simp only [hkind, Ty.elem?, hc]
+    · rw [if_neg ho] at hse; cases hse
+
+theorem coll_shape {t : OTy} {V : VTy} (hV : vtyOf t = some V) (hc : V.isColl = true) :
+    ∃ ty, t = some ty ∧ ty.isPtr = false ∧ ty.kind = .slice := by
+  cases V with
+  | sl k =>
+    obtain ⟨ty, e, rfl, _, _, _, hp, hkind⟩ := sliceElemKind_facts (vtyOf_sl hV)
+    exact ⟨ty, rfl, hp, hkind⟩
+  | slo et =>
+    have hse : sloElem t = some et := by
+      unfold vtyOf at hV
+      (repeat' (split at hV)) <;> first | (cases hV; assumption) | cases hV
+    cases t with
+    | none => cases hse
+    | some ty =>
+      simp only [sloElem] at hse
+      cases hcore : ty.core <;> rw [hcore] at hse <;> simp only [] at hse <;> try (cases hse)
+      exact ⟨ty, rfl, by simp [Ty.isPtr, hcore], by simp [Ty.kind, hcore]⟩
+  | sc _ => cases hc
+  | anys => cases hc
+  | obj _ => cases hc
+  | mapAny => cases hc
+  | any => cases hc
+
+theorem coll_isArrayT {t : OTy} {V : VTy} (hV : vtyOf t = some V) (hc : V.isColl = true) : isArrayT t = true := by
+  cases V with
+  | sl k => exact (slice_type_facts (vtyOf_sl hV)).1
+  | slo et => exact (slo_facts hV).1
+  | sc _ => cases hc
+  | anys => cases hc
+  | obj _ => cases hc
+  | mapAny => cases hc
+  | any => cases hc
+
+theorem arr_of_collV {v : Val} {V : VTy} (hc : V.isColl = true) (hv : ValOfV v V) : ∃ et xs, v = .arr et xs := by
+  cases V with
+  | sl k => obtain ⟨et, xs, rfl, _, _⟩ := hv; exact ⟨_, _, rfl⟩
+  | slo t => obtain ⟨et, xs, rfl, _⟩ := hv; exact ⟨_, _, rfl⟩
+  | sc _ => cases hc
+  | anys => cases hc
+  | obj _ => cases hc
+  | mapAny => cases hc
+  | any => cases hc
+
 /-! ### evaluation judgement for the extended fragment -/
 
 def EvalOKV (E : ErrClass → Prop) (P : Ctx → Prop) (c : SCfg) (n' : Node) (V : VTy) : Prop :=
@@ -220,7 +339,7 @@ def EvalOKV (E : ErrClass → Prop) (P : Ctx → Prop) (c : SCfg) (n' : Node) (V
 def CtxFor (cs : List OTy) (ctx : Ctx) : Prop :=
   match cs, ctx with
   | [], _ => True
-  | ct :: _, cv :: _ => ∃ k, sliceElemKind ct = some k ∧ ArrOf cv.1 k
+  | ct :: _, cv :: _ => ∃ V, vtyOf ct = some V ∧ V.isColl = true ∧ ValOfV cv.1 V
   | _ :: _, [] => False
 
 def Spec2 (E : ErrClass → Prop) (cfg : CheckCfg) (c : SCfg) (cs : List OTy) (n : Node) : Prop :=
@@ -257,6 +376,21 @@ theorem fetchV_arr {a b : Val} {k : RKind} {ki : Kind} (hi : E .index) (ha : Arr
     | .ok v => ValOfK v k
     | .error e => E e := by
   obtain ⟨et, xs, rfl, _, hxs⟩ := ha
+  obtain ⟨n, hn⟩ := toIntR_num hb
+  simp only [fetchV, hn]
+  by_cases hr : 0 ≤ n ∧ n < (xs.length : Int)
+  · simp only [hr, and_self, if_true]
+    apply hxs
+    apply getD_mem_of_lt
+    omega
+  · simp only [hr, if_false]
+    exact hi
+
+theorem fetchV_arr_gen {tag : ElemT} {xs : List Val} {b : Val} {ki : Kind} (Q : Val → Prop) (hi : E .index)
+    (hxs : ∀ x ∈ xs, Q x) (hb : NumOf b ki) :
+    match fetchV (.arr tag xs) b false with
+    | .ok v => Q v
+    | .error e => E e := by
   obtain ⟨n, hn⟩ := toIntR_num hb
   simp only [fetchV, hn]
   by_cases hr : 0 ≤ n ∧ n < (xs.length : Int)
@@ -308,18 +442,38 @@ theorem spec2_pointer (hi : E .index) (cfg : CheckCfg) (c : SCfg) (cs : List OTy
     | nil => exact absurd hctx (by simp [CtxFor])
     | cons cv ctx' =>
       obtain ⟨coll, i⟩ := cv
-      obtain ⟨k, hk, harr⟩ := hctx
-      obtain ⟨_, et, hidx, hek, hes⟩ := slice_type_facts hk
-      simp only [pointerRule, hidx] at hrule
-      cases hrule
-      rw [vtyOf_scalar hes, hek] at hV
-      cases hV
-      simp only [eval, SM.lift]
+      obtain ⟨Vc, hVc, hcoll, harr⟩ := hctx
       have hnum : NumOf (Val.int .int i) Kind.int := ⟨i, rfl⟩
-      have hf := fetchV_arr (E := E) hi harr hnum
-      cases hfe : fetchV coll (.int .int i) false with
-      | ok v => rw [hfe] at hf; exact hf
-      | error e => rw [hfe] at hf; exact hf
+      cases Vc with
+      | sl k =>
+        have hk := vtyOf_sl hVc
+        obtain ⟨_, et, hidx, hek, hes⟩ := slice_type_facts hk
+        simp only [pointerRule, hidx] at hrule
+        cases hrule
+        rw [vtyOf_scalar hes, hek] at hV
+        cases hV
+        simp only [eval, SM.lift]
+        have hf := fetchV_arr (E := E) hi harr hnum
+        cases hfe : fetchV coll (.int .int i) false with
+        | ok v => rw [hfe] at hf; exact hf
+        | error e => rw [hfe] at hf; exact hf
+      | slo et =>
+        obtain ⟨_, hidx, hobj⟩ := slo_facts hVc
+        simp only [pointerRule, hidx] at hrule
+        cases hrule
+        rw [hobj] at hV
+        cases hV
+        obtain ⟨tag, xs, rfl, hall⟩ := harr
+        simp only [eval, SM.lift]
+        have hf := fetchV_arr_gen (E := E) (tag := tag) (fun v => ∀ n, Conf n v τ) hi hall hnum
+        cases hfe : fetchV (.arr tag xs) (.int .int i) false with
+        | ok v => rw [hfe] at hf; exact hf
+        | error e => rw [hfe] at hf; exact hf
+      | sc _ => cases hcoll
+      | anys => cases hcoll
+      | obj _ => cases hcoll
+      | mapAny => cases hcoll
+      | any => cases hcoll
 
 /-! ### indexing, `len`, `in`, `..` -/
 
@@ -715,14 +869,14 @@ theorem predStep_spec (c : SCfg) (ctx : Ctx) (coll : Val) (b : Node) (t f : Unit
       | inr v => exact ht v rfl
 
 /-- the closure's body evaluated at element `i` of `coll` -/
-theorem body_at {cs : List OTy} {collT : OTy} {k : RKind} (c : SCfg) (b : Node) (Vb : VTy)
-    (hk : sliceElemKind collT = some k)
+theorem body_at {cs : List OTy} {collT : OTy} {Va : VTy} (c : SCfg) (b : Node) (Vb : VTy)
+    (hk : vtyOf collT = some Va) (hVa : Va.isColl = true)
     (hbody : EvalOKV E (CtxFor (collT :: cs)) c b Vb)
-    (coll : Val) (hcoll : ArrOf coll k) (i : Int) (ctx : Ctx) (s : SState) :
+    (coll : Val) (hcoll : ValOfV coll Va) (i : Int) (ctx : Ctx) (s : SState) :
     match (eval c ((coll, i) :: ctx) b s).1 with
     | .ok v => ValOfV v Vb
     | .error e => E e :=
-  hbody ((coll, i) :: ctx) ⟨k, hk, hcoll⟩ s
+  hbody ((coll, i) :: ctx) ⟨Va, hk, hVa, hcoll⟩ s
 
 theorem loopIdx_spec_eq {α : Type} (Inv : α → Prop) (Res : Val → Prop) (body : Nat → α → SM (α ⊕ Val))
     (hbody : ∀ i acc s, Inv acc → StepOK E Inv Res (body i acc s).1)
@@ -777,18 +931,18 @@ theorem eval_count (c : SCfg) (ctx : Ctx) (m : Meta) (a b : Node) :
   rfl
 
 /-- the body of a predicate builtin at element `i`: a boolean or a tolerated failure -/
-theorem body_bool {cs : List OTy} {collT : OTy} {k : RKind} (c : SCfg) (b : Node)
-    (hk : sliceElemKind collT = some k)
+theorem body_bool {cs : List OTy} {collT : OTy} {Va : VTy} (c : SCfg) (b : Node)
+    (hk : vtyOf collT = some Va) (hVa : Va.isColl = true)
     (hbody : EvalOKV E (CtxFor (collT :: cs)) c b (.sc .bool))
-    (coll : Val) (hcoll : ArrOf coll k) (ctx : Ctx) (i : Nat) (s : SState) :
+    (coll : Val) (hcoll : ValOfV coll Va) (ctx : Ctx) (i : Nat) (s : SState) :
     ResOK E isBoolVal (eval c ((coll, (i : Int)) :: ctx) b s).1 :=
-  body_at c b (.sc .bool) hk hbody coll hcoll (i : Int) ctx s
+  body_at c b (.sc .bool) hk hVa hbody coll hcoll (i : Int) ctx s
 
-theorem evalPredLoop_spec {cs : List OTy} {collT : OTy} {k : RKind} (c : SCfg) (a b : Node)
+theorem evalPredLoop_spec {cs : List OTy} {collT : OTy} {Va : VTy} (c : SCfg) (a b : Node)
     (t f : Unit ⊕ Val) (dflt : Val)
     (ht : ∀ v, t = .inr v → isBoolVal v) (hf : ∀ v, f = .inr v → isBoolVal v) (hd : isBoolVal dflt)
-    (hk : sliceElemKind collT = some k)
-    (ha : EvalOKV E (CtxFor cs) c a (.sl k))
+    (hk : vtyOf collT = some Va) (hVa : Va.isColl = true)
+    (ha : EvalOKV E (CtxFor cs) c a Va)
     (hbody : EvalOKV E (CtxFor (collT :: cs)) c b (.sc .bool))
     (ctx : Ctx) (hctx : CtxFor cs ctx) (s : SState) :
     ResOK E isBoolVal (evalPredLoop c ctx a b t f dflt s).1 := by
@@ -801,12 +955,12 @@ theorem evalPredLoop_spec {cs : List OTy} {collT : OTy} {k : RKind} (c : SCfg) (
   | error e => exact h1
   | ok coll =>
     simp only [] at h1 ⊢
-    have hcoll : ArrOf coll k := h1
-    obtain ⟨et, xs, rfl, _, _⟩ := h1
+    have hcoll : ValOfV coll Va := h1
+    obtain ⟨et, xs, rfl⟩ := arr_of_collV hVa h1
     simp only [lengthV, SM.lift, SM.pure']
     rcases hloop : loopIdx (predStep c ctx (Val.arr et xs) b t f) (↑xs.length : Int).toNat 0 () s1 with ⟨r, s2⟩
     have hs := loopIdx_spec_eq (E := E) (fun _ : Unit => True) isBoolVal _
-      (fun i acc s' h => predStep_spec c ctx _ b t f ht hf (body_bool c b hk hbody _ hcoll ctx) i acc s' h)
+      (fun i acc s' h => predStep_spec c ctx _ b t f ht hf (body_bool c b hk hVa hbody _ hcoll ctx) i acc s' h)
       _ _ _ _ _ _ hloop trivial
     cases r with
     | error e => exact hs
@@ -830,9 +984,9 @@ theorem countStep_spec (c : SCfg) (ctx : Ctx) (coll : Val) (b : Node)
     obtain ⟨x, rfl⟩ := h
     cases x <;> simp only [asBool, SM.pure', pure] <;> trivial
 
-theorem evalCountLoop_spec {cs : List OTy} {collT : OTy} {k : RKind} (c : SCfg) (a b : Node) (isOne : Bool)
-    (hk : sliceElemKind collT = some k)
-    (ha : EvalOKV E (CtxFor cs) c a (.sl k))
+theorem evalCountLoop_spec {cs : List OTy} {collT : OTy} {Va : VTy} (c : SCfg) (a b : Node) (isOne : Bool)
+    (hk : vtyOf collT = some Va) (hVa : Va.isColl = true)
+    (ha : EvalOKV E (CtxFor cs) c a Va)
     (hbody : EvalOKV E (CtxFor (collT :: cs)) c b (.sc .bool))
     (ctx : Ctx) (hctx : CtxFor cs ctx) (s : SState) :
     ResOK E (fun v => if isOne then isBoolVal v else ValOfK v (.num .int)) (evalCountLoop c ctx a b isOne s).1 := by
@@ -845,12 +999,12 @@ theorem evalCountLoop_spec {cs : List OTy} {collT : OTy} {k : RKind} (c : SCfg) 
   | error e => exact h1
   | ok coll =>
     simp only [] at h1 ⊢
-    have hcoll : ArrOf coll k := h1
-    obtain ⟨et, xs, rfl, _, _⟩ := h1
+    have hcoll : ValOfV coll Va := h1
+    obtain ⟨et, xs, rfl⟩ := arr_of_collV hVa h1
     simp only [lengthV, SM.lift, SM.pure']
     rcases hloop : loopIdx (countStep c ctx (Val.arr et xs) b) (↑xs.length : Int).toNat 0 (0 : Int) s1 with ⟨r, s2⟩
     have hs := loopIdx_spec_eq (E := E) (fun _ : Int => True) (fun _ => False) _
-      (fun i acc s' h => countStep_spec c ctx _ b (body_bool c b hk hbody _ hcoll ctx) i acc s' h)
+      (fun i acc s' h => countStep_spec c ctx _ b (body_bool c b hk hVa hbody _ hcoll ctx) i acc s' h)
       _ _ _ _ _ _ hloop trivial
     cases r with
     | error e => exact hs
